@@ -18,6 +18,8 @@ def canon(n, subst=None):
     k = n.k
     if k == "DeclRefExpr" and n.decl:
         d = n.decl
+        if n.is_lambda_parm():
+            return "?lambdaparm#%d" % n.id
         if d.get("k") == "parm" and subst is not None and d["n"] in subst:
             return subst[d["n"]]
         if d.get("k") == "parm":
